@@ -308,6 +308,7 @@ impl World for PollWorld {
                     .filter(|o| o.key.starts_with(&prefix))
                     .collect();
                 objects.sort_by(|a, b| a.key.as_bytes().cmp(b.key.as_bytes()));
+                let mut objects = crate::s3sim::page_after(objects, req);
                 let total = objects.len();
                 objects.truncate(max_keys.unwrap_or(1000).min(1000));
                 Response::xml(crate::s3sim::list_document_styled(req.bucket(), &prefix, &objects, objects.len() < total, self.script.delivery & 4 != 0, self.script.delivery & 8 == 0, max_keys, if self.script.delivery & 8 != 0 { 2 } else { 0 }))
